@@ -53,6 +53,7 @@ func Run(opts *Options) (int, error) {
 	}
 
 	defer util.RunAtExitFuncs()
+	defer removeTemporaryFiles()
 
 	// Output channel given
 	if opts.Output != nil {
